@@ -100,7 +100,31 @@ int bad_counter_reset(int restart) {
   return n++;
 }
 
+// R12.5: constructs of the compiler's own source that chibicc is known to miscompile
+unsigned long bad_self_fp_to_u64(double d) {
+  return d;
+}
+
+float bad_self_u64_to_float(unsigned long x) {
+  return x;
+}
+
+long double ld_source(void);
+void bad_self_discard(void) {
+  ld_source();
+}
+
+void bad_self_chain(long double *a, long double *b, long double c) {
+  *a = *b = c;
+}
+
 // ---- must stay silent
+void good_ld_assign(long double *a, long double c) {
+  *a = c;
+  if (c)
+    *a = c + 1;
+}
+
 int good_counter(void) {
   static int i = 1;
   return i++;
